@@ -32,12 +32,14 @@ Effect ==
     [] Ev.op = "invert" -> [g EXCEPT ![A.h] = BInvert(g[A.h])]
     [] Ev.op = "detach" -> g
     [] Ev.op = "failed" -> g          \* the operation answered None: must be out of range in the model too
+    [] Ev.op = "panic"  -> g          \* never legal (below)
 Legal ==
   CASE Ev.op \in {"read", "peek", "seek"} -> A.n <= Len(g[A.h])
     [] Ev.op = "split"  -> A.n <= Len(g[A.h])
     [] Ev.op = "substr" -> A.i <= A.j /\ A.j <= Len(g[A.h])
     [] Ev.op = "insert" -> A.k <= Len(g[A.h])
     [] Ev.op = "failed" -> (IF A.what = "substr" THEN ~(A.i <= A.j /\ A.j <= Len(g[A.h])) ELSE A.n > Len(g[A.h]))
+    [] Ev.op = "panic"  -> FALSE       \* no operation of the specification panics
     [] OTHER -> TRUE
 
 Next == /\ l <= Len(Rec) /\ l' = l + 1
